@@ -52,7 +52,7 @@ func fastCall(e *asm.Emitter, m *emMethod) func(arg uint32) {
 }
 
 func C03(r *vf.Run) {
-	r.Rule = "every instruction-emitting method of *asm.Emitter (enumerated by reflection, matched against a hand-written method->(mnemonic, mode, operand kind, width guard) table) x every legal tracked width state x operand sweep: exhaustive for 8/16-bit operands and int8 displacements, 24-bit operands: all 2^24 in one width state and all low words x 8 banks + random in the other three (quick), all 2^24 in every state (thorough). Appended bytes are compared with an independent encoder, Len()/PC() advance with the architectural length, and the bytes are decoded back by the model decoder and (sampled) by both library CPUs (disassembly byte count + mnemonic, Step PC advance). The same law is checked where the target buffer ends (0..size+1 free bytes: whole encoding or nothing) and re-checked inside generated call histories (what a call appends must not depend on what precedes it). A cell is (method, width state, operand class)"
+	r.Rule = "every instruction-emitting method of *asm.Emitter (enumerated by reflection, matched against a hand-written method->(mnemonic, mode, operand kind, width guard) table) x every legal tracked width state x operand sweep: exhaustive for 8/16-bit operands and int8 displacements, 24-bit operands: all 2^24 in one width state and all low words x 8 banks + random in the other three (quick), all 2^24 in every state (thorough). Appended bytes are compared with an independent encoder, Len()/PC() advance with the architectural length, and the bytes are decoded back by the model decoder and (sampled) by both library CPUs (disassembly byte count + mnemonic, Step PC advance). The same law is checked for every method right after every load-then-transfer idiom, where the target buffer ends (0..size+1 free bytes: whole encoding or nothing) and re-checked inside generated call histories (what a call appends must not depend on what precedes it). A cell is (method, width state, operand class)"
 	r.Assume = []string{"opcode matrix and length rule of /verif/internal/ref; the method table in /verif/props/emit.go is the 'named after' relation"}
 
 	unmapped, missing := unmappedEmitterMethods()
@@ -281,6 +281,67 @@ func C03(r *vf.Run) {
 				}
 			}
 			r.MergeCells(cells)
+		})
+	}
+	if r.Phase("after-idioms") {
+		// every method right after every load-then-transfer idiom (LDA #0 / TCD, LDX #$1FF / TXS, ...):
+		// what a method appends is a function of the method and its operand, not of what the
+		// assembler may have inferred from the instructions before it
+		var loads []*emMethod
+		for _, m := range methods {
+			if strings.HasPrefix(m.Name, "LD") && strings.Contains(m.Name, "_imm") {
+				loads = append(loads, m)
+			}
+		}
+		var follow []*emMethod
+		seen := map[string]bool{}
+		for _, n := range idiomFollowUps {
+			if m := emByName[n]; m != nil && !seen[n] && !missingSet[n] {
+				follow = append(follow, m)
+				seen[n] = true
+			}
+		}
+		r.Parallel(runtime.NumCPU(), len(loads)*len(follow), func(wi, idx int) {
+			ld, fu := loads[idx/len(follow)], follow[idx%len(follow)]
+			g := r.Rand("idiom").Fork(uint64(idx))
+			var n int64
+			for _, v := range []uint32{0, 1, 0xFF, 0x100, 0x1FF, 0xFFFF, g.U32()} {
+				for flags := byte(0); flags < 0x40; flags += 0x10 {
+					if !guardOKFlags(ld.Guard, flags) {
+						continue
+					}
+					for _, m := range methods {
+						if m.Arg == aLabel8 || m.Arg == aLabel16 {
+							continue
+						}
+						for _, arg := range []uint32{0, g.U32() & 0xFF, g.U32()} {
+							e := asm.NewEmitter(make([]byte, 32), g.Intn(4) == 0)
+							e.SetBase(0x008000)
+							e.AssumeSEP(asm.Flags(flags))
+							if vf.Try(func() { callMethod(e, ld, v, ""); callMethod(e, fu, 0, "") }) != nil {
+								continue
+							}
+							if !guardOKFlags(m.Guard, byte(e.Flags())) {
+								continue
+							}
+							c := hcall{Op: "ins", M: m, Arg: arg}
+							want := c.bytes()
+							n0, pc0 := e.Len(), e.PC()
+							pan := vf.Try(func() { callMethod(e, m, arg, "") })
+							n++
+							if pan != nil {
+								r.Fail("legal-call-refused:"+m.Name, fmt.Sprintf("after %s($%x); %s(): %s($%x) panicked: %v", ld.Name, v, fu.Name, m.Name, arg, pan), nil)
+								continue
+							}
+							if got := e.Bytes()[n0:]; string(got) != string(want) || e.PC()-pc0 != uint32(len(want)) {
+								r.Fail("encoding-after-idiom:"+m.Name, fmt.Sprintf("after %s($%x); %s(): %s($%x) appended % x (PC +%d), its encoding is % x", ld.Name, v, fu.Name, m.Name, arg, got, e.PC()-pc0, want), nil)
+							}
+						}
+					}
+				}
+			}
+			r.Eval(n)
+			r.CellN("after-idiom:"+fu.Name, n)
 		})
 	}
 	if r.Phase("in-context") {
